@@ -268,3 +268,88 @@ pub fn drive_session(seed: u64, sessions: usize, sink: &mut Sink) -> usize {
     }
     muts
 }
+
+// ===================================================================== C16: outcomes of every public operation
+
+fn call_event(op: &str, n: usize, m: usize, nan: bool, wf: bool, panic: bool) -> Value {
+    json!({"ev":"call","op":op,"n":n,"m":m,"nan":nan,"wf":wf,"panic":panic})
+}
+
+/// Every public operation under catch_unwind: on well-formed finite input (wf = true) and on the
+/// documented-reject inputs (wf = false).
+pub fn drive_nopanic(seed: u64, rounds: usize, sink: &mut Sink) -> usize {
+    let mut rng = Rng::new(seed);
+    let mut n_wf = 0;
+    let ev = |sink: &mut Sink, op: &str, n: usize, m: usize, nan: bool, wf: bool, r: bool| {
+        sink.ev(call_event(op, n, m, nan, wf, r));
+    };
+    for _ in 0..rounds {
+        // ---- constructions
+        let len = 2 + rng.below(8) as usize;
+        let ks: Vec<Knot> = (0..len).map(|_| Knot { x: rng.float_exp(-10, 10), y: rng.float_exp(-10, 10) }).collect();
+        ev(sink, "linear", len, 0, false, true, guarded(|| linear(&ks)).is_err());
+        let mut xs: Vec<f64> = (0..len + 1).map(|_| rng.float_exp(-10, 10)).collect();
+        xs.sort_by(|a, b| a.partial_cmp(b).unwrap());
+        xs.dedup();
+        if xs.len() >= 3 {
+            let ks: Vec<Knot> = xs.iter().map(|&x| Knot { x, y: if rng.below(3) == 0 { 1.0 } else { rng.float_exp(-10, 10) } }).collect();
+            ev(sink, "constrained_spline", ks.len(), 0, false, true, guarded(|| constrained_spline(&ks)).is_err());
+        }
+        n_wf += 2;
+        // ---- evaluation on a well-formed function, every argument class
+        let isq = rng.below(4) == 0;
+        let obj = random_obj(&mut rng, isq);
+        let ends = obj.ends();
+        let nseg = ends.len();
+        for x in [f64::NAN, f64::INFINITY, f64::NEG_INFINITY, 0.0, -0.0, f64::MAX, f64::MIN_POSITIVE, rng.float_exp(-1022, 1023), ends[0]] {
+            ev(sink, "evaluate", nseg, 0, false, true, guarded(|| obj.evaluate(x)).is_err());
+            let p = guarded(|| each!(&obj, p => { let mut e = PiecewiseEvaluator::new(&p.segments); e.evaluate(x); e.evaluate(ends[0]); e.evaluate(x) })).is_err();
+            ev(sink, "evaluator_new", nseg, 0, false, true, p);
+            let p = guarded(|| each!(&obj, p => p.evaluate_v(vec![ends[0], x, ends[0]]).count())).is_err();
+            ev(sink, "evaluate_v", nseg, 0, false, true, p);
+            n_wf += 3;
+        }
+        // ---- the algebra
+        let s = rng.float_exp(-30, 30);
+        for (name, r) in [
+            ("scale", guarded(|| obj.clone().scale(s, false)).is_err()),
+            ("scale_assign", guarded(|| obj.clone().scale(s, true)).is_err()),
+            ("neg", guarded(|| obj.clone().neg()).is_err()),
+            ("translate", guarded(|| obj.clone().translate(s)).is_err()),
+            ("derive", guarded(|| obj.clone().derive()).is_err()),
+            ("integrate", guarded(|| obj.clone().integrate(Knot { x: s.abs().min(8.0), y: s })).is_err()),
+        ] {
+            ev(sink, name, nseg, 0, false, true, r);
+            n_wf += 1;
+        }
+        // indefinite() for the integrable piece types
+        macro_rules! indef {
+            ($($V:ident),*) => { match &obj { $(DynPw::$V(p) => Some(guarded(|| p.indefinite()).is_err()),)* _ => None } };
+        }
+        if let Some(r) = indef!(P0, P1, P2, P3, P4, P5, P6, P7) {
+            ev(sink, "indefinite", nseg, 0, false, true, r);
+            n_wf += 1;
+        }
+        // + and - on well-formed IntOfLogPoly4 functions
+        if let (DynPw::Q(f), DynPw::Q(g)) = (random_obj(&mut rng, true), random_obj(&mut rng, true)) {
+            ev(sink, "add", f.segments.len(), g.segments.len(), false, true, guarded(|| &f + &g).is_err());
+            ev(sink, "sub", f.segments.len(), g.segments.len(), false, true, guarded(|| &f - &g).is_err());
+            n_wf += 2;
+            // documented rejections: empty operand, NaN breakpoint
+            let empty: Piecewise<IntOfLogPoly4> = Piecewise { segments: vec![] };
+            ev(sink, "add", 0, g.segments.len(), false, false, guarded(|| &empty + &g).is_err());
+            ev(sink, "sub", f.segments.len(), 0, false, false, guarded(|| &f - &empty).is_err());
+            let mut h = g.clone();
+            h.segments[0].end = f64::NAN;
+            ev(sink, "add", f.segments.len(), h.segments.len(), true, false, guarded(|| &f + &h).is_err());
+            ev(sink, "evaluate", 0, 0, false, false, guarded(|| empty.evaluate(1.0)).is_err());
+            ev(sink, "evaluate_v", 0, 0, false, false, guarded(|| empty.evaluate_v(vec![1.0]).count()).is_err());
+            ev(sink, "evaluator_new", 0, 0, false, false, guarded(|| { PiecewiseEvaluator::new(&empty.segments); }).is_err());
+        }
+        let short: Vec<Knot> = (0..rng.below(2)).map(|_| Knot { x: 0.0, y: 0.0 }).collect();
+        ev(sink, "linear", short.len(), 0, false, false, guarded(|| linear(&short)).is_err());
+        let short: Vec<Knot> = (0..rng.below(3)).map(|i| Knot { x: i as f64, y: 0.0 }).collect();
+        ev(sink, "constrained_spline", short.len(), 0, false, false, guarded(|| constrained_spline(&short)).is_err());
+    }
+    n_wf
+}
